@@ -14,5 +14,10 @@ DynNames == {"go", "go+reflection", "fastgo+no_fmt", "go/dump", "go+reflection/p
 CfgDyn   == {x \in ConfigsQuick : x.name \in DynNames}
 CfgAll   == ConfigsQuick \cup ConfigsSingles \cup ConfigsPairs
 
+\* MaxPerm folds "many" keys onto the same walks as 2 or 3 keys: the quick run leaves the Many-level deviations out
+ProgsW1Low == {q \in ProgsW1 : \A f \in {"ann", "ns", "mapConst", "mapDefault", "inc", "defs"} : q[f] # Many}
+
 Dirs2 == {"out1", "out2"}
+StaleAny  == SUBSET Dirs2
+StaleBoth == {{}, Dirs2}
 =============================================================================
